@@ -17,6 +17,7 @@ def rand_schema(rng, depth=0):
         if rng.random() < 0.2: s["exclusiveMinimum"] = rng.randint(-5, 0)
         if rng.random() < 0.15: s["exclusiveMaximum"] = rng.randint(15, 30)
         if rng.random() < 0.2: s["multipleOf"] = rng.choice([2, 3, 5])
+        if rng.random() < 0.12: s["format"] = rng.choice(["int64", "int32", "unknown-format"])
         if rng.random() < 0.15:         # both bounds of one side, equal or one apart
             side = rng.choice(["imum", "imum", "both"])
             b = rng.randint(-3, 12)
@@ -32,6 +33,7 @@ def rand_schema(rng, depth=0):
         s = {"type": "number"}
         if rng.random() < 0.5: s["exclusiveMaximum"] = rng.choice([10, 100.5])
         if rng.random() < 0.4: s["minimum"] = rng.choice([0, -1.5])
+        if rng.random() < 0.12: s["format"] = rng.choice(["double", "float", "unknown-format"])
         return s
     if k == "string":
         s = {"type": "string"}
@@ -39,6 +41,7 @@ def rand_schema(rng, depth=0):
         if rng.random() < 0.4: s["maxLength"] = rng.randint(3, 6)
         if rng.random() < 0.3: s["pattern"] = rng.choice(["^[a-z]+$", "^\\d+$", "^a"])
         if rng.random() < 0.15: s["format"] = rng.choice(["date", "date-time", "uuid", "time", "duration"])
+        elif rng.random() < 0.15: s["format"] = rng.choice(["email", "hostname", "uri", "regex", "flag"])     # no dedicated type: the 'type' keyword decides
         return s
     if k == "boolean": return {"type": "boolean"}
     if k == "null": return {"type": "null"}
